@@ -10,10 +10,21 @@
 //   history is what decides where compressions (and the alternation of the merge direction) happen; therefore the
 //   expensive battery runs only at generated "q" ops and at the end, the side-effect-free checks run after every op.
 //   Model per slot: the multiset of accepted values (exact count, exact extremes).
-// Sub-property "acc": long streams (1e5..1e6 distinct values, several orders and value spacings, 1..8 part digests
-//   merged sequentially or as a balanced tree, optional interleaved queries): rank error of get_rank and of
-//   get_quantile against the exact rank, with a bound proportional to the K_2 cluster size q(1-q)*Z/(2k) (weak,
-//   calibrated claim).
+// Sub-property "smallk": the same history language with one small k (10..20) for all digests, so that weighted centroids,
+//   many compressions and direction changes happen within a few hundred values.
+// Sub-property "acc": long streams (1e5..1e6 distinct values; sorted / reversed / shuffled / stride arrival; linear,
+//   log-uniform or cubic spacing; 1..8 part digests merged sequentially, as a chain or as a balanced tree; optional
+//   interleaved queries): rank error of get_rank and of get_quantile against the exact rank, bounded by a calibrated
+//   multiple of the K_2 cluster size q(1-q)*Z/(2k) + 1/n, which is what makes the tails tighter than the middle
+//   (weak, calibrated claim; constants and calibration next to acc_constants below).
+//
+// Findings of this harness on the pinned tree (both fixed in /repo since; the checks keep their keys):
+//   * get_quantile interpolated between two centroids with the weights swapped (non-monotone quantiles, larger rank error):
+//     KEY_QMONO, KEY_QACC, out/proposed/C17-1.diff, fixed by ed031f2; replays/C17-quantile-monotone-k10-sorted9.replay
+//   * get_quantile one rounding step outside [min,max] (weighted_average not clamped): KEY_QRANGE, out/proposed/C17-2.diff,
+//     fixed by e8f00b5; replays/C17-quantile-range-*.replay
+// Keyed failures are recorded and raised at the END of the case, so that every other check of the case is still evaluated
+// while a finding is open.
 #include "vf/core.hpp"
 #include <tdigest.hpp>
 #include <limits>
@@ -27,17 +38,17 @@ using vf::Case; using vf::Op;
 
 namespace {
 
-// known finding: see out/proposed/C17-1.diff
+// finding (fixed by ed031f2): see out/proposed/C17-1.diff
 const char* const KEY_QMONO =
     "C17|tdigest|get_quantile decreases while the rank increases|two ranks between the same two centroids, at least one of weight>1";
 
-// known finding: see out/proposed/C17-2.diff
+// finding (fixed by e8f00b5): see out/proposed/C17-2.diff
 const char* const KEY_QRANGE =
     "C17|tdigest|get_quantile one rounding step outside [min,max]|interpolation between two centroids with equal or nearly equal means at an extreme (constant stream, duplicates of min or max)";
 
-// known finding: same root cause and patch as KEY_QMONO (out/proposed/C17-1.diff)
+// finding (fixed by ed031f2): same root cause and patch as KEY_QMONO (out/proposed/C17-1.diff)
 const char* const KEY_QACC =
-    "C17|tdigest|get_quantile rank error above 1.5 cluster sizes on a long stream|rank between two centroids, answer at the wrong end of the pair";
+    "C17|tdigest|get_quantile rank error above the calibrated cluster-size bound on a long stream|rank between two centroids, answer at the wrong end of the pair";
 
 template <typename T> struct Lim;
 template <> struct Lim<double> { static constexpr double big = 1e150; static const char* name() { return "double"; } };
